@@ -484,7 +484,16 @@ func TestTableHTTPToken(t *testing.T) {
 							break
 						}
 						r := rs[0]
-						seen = append(seen, map[string]any{"t": r.typ, "tok": tokOf(r)})
+						var pl struct {
+							CID    string `json:"cid"`
+							IsHTTP bool   `json:"isHttp"`
+						}
+						json.Unmarshal(r.payload, &pl)
+						w.mu.Lock()
+						own := w.symCID["h1"]
+						w.mu.Unlock()
+						// the id the request carries is the id of the temporary connection (the one its conn.<cid> subject is made of)
+						seen = append(seen, map[string]any{"t": r.typ, "tok": tokOf(r), "cid": pl.CID != "" && pl.CID == own, "http": pl.IsHTTP})
 						switch {
 						case r.typ == "auth" && cfg.HeaderAuth != "":
 							w.Do(Step{Op: "token", C: "h1", Tok: init})
